@@ -117,6 +117,7 @@ func (w *World) ClientName(id int64) string {
 // Projection renders Server.Project in abstract names, JSON-ready:
 //
 //	lookup: X -> {c, cid, authd}      GetControlConnectionByClientID for every client name
+//	ilookup: X -> {c, cid, authd}     GetControlConnectionInterface (c = "none" only for a real nil)
 //	conns:  c -> {sess, reg, tun, authd, cid, tcl}  for every accepted connection
 //	listed: [c...]                     ListAuthenticated
 //	slist:  [c...]                     SessionManager.ListConnections
@@ -127,14 +128,20 @@ func (w *World) Projection() map[string]any {
 		ids[i] = w.ClientID(n)
 	}
 	p := w.S.Project(ids)
-	lookup := map[string]any{}
-	for i, n := range w.ClientNames {
-		lv := p.Lookup[ids[i]]
+	render := func(lv LookupView) map[string]any {
 		if !lv.Found {
-			lookup[n] = map[string]any{"c": "none", "cid": "none", "authd": false}
-			continue
+			return map[string]any{"c": "none", "cid": "none", "authd": false}
 		}
-		lookup[n] = map[string]any{"c": w.ConnName(lv.ConnID), "cid": w.ClientName(lv.ClientID), "authd": lv.Authd}
+		c := w.ConnName(lv.ConnID)
+		if lv.ConnID == "" {
+			c = "?no-connection" // something was returned (non-nil), but it is no connection
+		}
+		return map[string]any{"c": c, "cid": w.ClientName(lv.ClientID), "authd": lv.Authd}
+	}
+	lookup, ilookup := map[string]any{}, map[string]any{}
+	for i, n := range w.ClientNames {
+		lookup[n] = render(p.Lookup[ids[i]])
+		ilookup[n] = render(p.LookupIface[ids[i]])
 	}
 	conns := map[string]any{}
 	for name, c := range w.conns {
@@ -143,7 +150,8 @@ func (w *World) Projection() map[string]any {
 		if v.InControl {
 			cid = w.ClientName(v.ClientID)
 		}
-		conns[name] = map[string]any{"sess": v.InSession, "reg": v.InControl, "tun": v.InTunnel, "authd": v.Authd, "cid": cid, "tcl": v.Closed}
+		conns[name] = map[string]any{"sess": v.InSession, "reg": v.InControl, "tun": v.InTunnel, "authd": v.Authd, "cid": cid, "tcl": v.Closed,
+			"info": v.InfoFound, "cidof": w.ClientName(v.ClientOf)}
 	}
 	listed := []string{}
 	for _, a := range p.Authenticated {
@@ -155,6 +163,6 @@ func (w *World) Projection() map[string]any {
 		slist = append(slist, w.ConnName(id))
 	}
 	sort.Strings(slist)
-	return map[string]any{"lookup": lookup, "conns": conns, "listed": listed, "slist": slist,
+	return map[string]any{"lookup": lookup, "conns": conns, "ilookup": ilookup, "listed": listed, "slist": slist,
 		"ctl": p.Stats.ControlConnections, "tun": p.Stats.TunnelConnections, "total": p.Stats.TotalConnections, "count": p.Count}
 }
